@@ -282,7 +282,8 @@ TRecvInfo ==
   /\ LET r == Rec[l] IN
      \E k \in Searches :
         /\ S_Check(k) /\ infos'[k] = infos[k] + 1
-        /\ Mode = "C14" =>
+        \* C14 quantifies over positions with a legal move (a finished game searched again prints an empty pv)
+        /\ (Mode = "C14" /\ C!Legal(sOf[k]) # {}) =>
              /\ InfoGrammar(r.tokens)
              /\ r.depth = dOf[k] + 1
              /\ PvLegal(sOf[k], {}, r.pv)
@@ -306,7 +307,7 @@ TRecvBest ==
              /\ (a # -1 => r.t - tOf[k] <= a + Allowance)
              /\ ((stopped[k] /\ tStop # -1) => r.t - Max2(tStop, tOf[k]) <= Allowance)
         \* a depth-only search reports every depth up to N before its bestmove
-        /\ (Mode = "C14" /\ DepthOnly(limOf[k]) /\ ~stopped[k]) => dOf[k] = limOf[k].depth
+        /\ (Mode = "C14" /\ DepthOnly(limOf[k]) /\ ~stopped[k] /\ C!Legal(sOf[k]) # {}) => dOf[k] = limOf[k].depth
   /\ Consume /\ KeepChess /\ lastT' = Rec[l].t
   /\ UNCHANGED <<gsess, ghist, goq, pend, sOf, tOf, limOf, dOf, tStop, readyQ, quitSent>>
 
